@@ -455,7 +455,10 @@ def _pydantic_one_parameter(ctx):
               "class PG(BaseModel, Generic[T]):\n    x: T\nclass PG2(BaseModel, Generic[T, V]):\n    x: T\n    y: V\n"
               "@dataclass\nclass Holder(Generic[T]):\n    p: PG[T]\n    ps: List[PG[T]]\n")
     exec(compile(source, f"<{mod.__name__}>", "exec", dont_inherit=True), mod.__dict__)  # noqa: S102
-    cases = [(mod.PG[int], {"x": 1}, {"x": "s"}), (mod.PG2[int, str], {"x": 1, "y": "s"}, {"x": 1, "y": 2}), (mod.Holder[int], {"p": {"x": 1}, "ps": [{"x": 2}]}, None)]     # PG[T] inside another generic: 'MyModel[T] -> Any' is pydantic's documented limitation
+    # a pydantic child of a BARE generic pydantic model stays generic in pydantic's own book-keeping (defect #96): bare it takes the bound
+    exec(compile("B = TypeVar('B', bound=int)\nclass PB(BaseModel, Generic[B]):\n    x: B\nclass PChild(PB):\n    y: int\n", f"<{mod.__name__}:2>", "exec", dont_inherit=True), mod.__dict__)  # noqa: S102
+    cases = [(mod.PG[int], {"x": 1}, {"x": "s"}), (mod.PG2[int, str], {"x": 1, "y": "s"}, {"x": 1, "y": 2}), (mod.Holder[int], {"p": {"x": 1}, "ps": [{"x": 2}]}, None),
+             (mod.PChild, {"x": 1, "y": 2}, {"x": "s", "y": 2}), (mod.PChild[int], {"x": 1, "y": 2}, {"x": "s", "y": 2})]     # PG[T] inside another generic: 'MyModel[T] -> Any' is pydantic's documented limitation
     for hint, good_d, bad_d in cases:
         ok_ = attempt(Retort().load, good_d, hint)
         ko_ = attempt(Retort().load, bad_d, hint) if bad_d is not None else ok_.__class__("load_error")
